@@ -106,9 +106,8 @@ theorem part_nodup (n : ℕ) : ∀ (x minv maxv : ℕ), (part x n minv maxv).Nod
         · exact (ih (x - v) v maxv).map (fun a b h => by simpa using h)
         · exact List.nodup_nil
       · refine List.Nodup.pairwise_of_forall_ne (List.nodup_range' (step := 1) (by omega)) ?_
-        intro a _ b _ hab
         -- different first entries: the two blocks are disjoint
-        intro l hla hlb
+        intro a _ b _ hab l hla hlb
         dsimp only at hla hlb
         split_ifs at hla with h1
         · split_ifs at hlb with h2
